@@ -1,106 +1,140 @@
+mod c19;
+mod campaign;
 mod gen;
 mod host;
+mod probe;
 mod rng;
 mod simdata;
 mod val;
 mod world;
 
-use host::*;
-use simdata::*;
-use std::collections::BTreeMap;
-use val::*;
-use world::*;
+use campaign::{Campaign, CheckArgs, Tier};
 
-fn demo<D: SimData>(src: &str) {
-    let mut d = D::create(Host::new(HostScript { resolve_default: Some(Answer::Unique), ..Default::default() }), &Knobs::default()).unwrap();
-    let b = compile(&mut d, src);
-    println!("{} build: {}", D::KIND, b.tag());
-    if let Some(b) = b.built() {
-        start(&mut d, b.entry_jump, &Val::Unit).unwrap();
-        for _ in 0..1000 {
-            let ins = current_instruction(&d);
-            let r = step(&mut d);
-            println!("  {:?} -> {:?} depths {:?}", ins, r.tag(), depths(&d));
-            if r != StepResult::Running {
-                println!("  {:?}", r);
-                break;
-            }
+fn arg_val(args: &[String], name: &str) -> Option<String> {
+    args.iter().position(|a| a == name).and_then(|i| args.get(i + 1)).cloned()
+}
+
+fn verif_root() -> String {
+    std::env::var("VERIF_ROOT").unwrap_or_else(|_| "/verif".to_string())
+}
+
+fn with_campaign(prop: &str, f: &mut dyn FnMut(&dyn Dispatch) -> i32) -> i32 {
+    match prop {
+        "C19" => f(&c19::C19),
+        _ => {
+            println!("HARNESS-ERROR: no campaign for {prop}");
+            2
         }
-        println!("  result {:?}", current_value(&d));
-        println!("  log {:?}", d.host().log.iter().map(|c| c.structural()).collect::<Vec<_>>());
-    } else {
-        println!("{:?}", b);
     }
 }
 
-fn probe<D: SimData>(profile: &str, n: usize) {
-    let mut tally: BTreeMap<String, usize> = BTreeMap::new();
-    let mut samples: BTreeMap<String, String> = BTreeMap::new();
-    for i in 0..n {
-        let mut rng = rng::Rng::new(rng::run_seed(1, 99, i as u64));
-        let budget = rng.range(2, 30);
-        let cfg = match profile {
-            "core" => gen::GenCfg::core(budget),
-            "heapy" => gen::GenCfg::heapy(budget),
-            _ => gen::GenCfg::full(budget),
-        };
-        let mut g = gen::Gen::new(&mut rng, cfg);
-        let prog = g.program();
-        let src = prog.top();
-        if std::env::var("PROBE_TRACE").is_ok() { eprintln!("#{} {:?}", i, src); }
-        let mut d = D::create(Host::new(HostScript { resolve_default: Some(Answer::Unique), ..Default::default() }), &Knobs::default()).unwrap();
-        let b = compile(&mut d, &src);
-        let key = match &b {
-            BuildOutcome::Ok(b) => {
-                start(&mut d, b.entry_jump, &Val::Unit).unwrap();
-                let mut out = "budget".to_string();
-                for _ in 0..3000 {
-                    match step(&mut d) {
-                        StepResult::Running => {}
-                        StepResult::End => {
-                            out = "end".into();
-                            break;
-                        }
-                        StepResult::Err { msg, .. } => {
-                            let m: String = msg.chars().filter(|c| !c.is_ascii_digit()).collect();
-                            out = format!("err: {}", &m[..m.len().min(110)]);
-                            break;
-                        }
-                        StepResult::Panic(p) => {
-                            out = format!("panic: {p}");
-                            break;
-                        }
-                    }
-                }
-                out
-            }
-            BuildOutcome::LexErr(m) | BuildOutcome::ParseErr(m) => format!("{}: {}", b.tag(), &m[..m.len().min(100)]),
-            BuildOutcome::BuildErr { msg, .. } => format!("build-err: {}", &msg[..msg.len().min(100)]),
-            BuildOutcome::Panic(p) => format!("build-panic: {p}"),
-        };
-        *tally.entry(key.clone()).or_default() += 1;
-        let e = samples.entry(key).or_insert(src.clone());
-        if src.len() < e.len() { *e = src; }
+/// object-safe view of a campaign for the CLI
+trait Dispatch {
+    fn check(&self, a: &CheckArgs) -> i32;
+    fn worker(&self, tier: Tier, seed: u64, shard: u64, shards: u64, total: u64, hashes_only: bool);
+    fn replay(&self, path: &str) -> i32;
+    fn runs(&self, tier: Tier) -> u64;
+    fn show(&self, tier: Tier, seed: u64, idx: u64) -> String;
+}
+
+impl<C: Campaign> Dispatch for C {
+    fn check(&self, a: &CheckArgs) -> i32 {
+        campaign::check(self, a)
     }
-    for (k, v) in &tally {
-        println!("{:6} {}\n         e.g. {:?}", v, k, samples[k]);
+    fn worker(&self, tier: Tier, seed: u64, shard: u64, shards: u64, total: u64, hashes_only: bool) {
+        campaign::worker(self, tier, seed, shard, shards, total, hashes_only)
+    }
+    fn replay(&self, path: &str) -> i32 {
+        campaign::replay(self, path)
+    }
+    fn runs(&self, tier: Tier) -> u64 {
+        Campaign::runs(self, tier)
+    }
+    fn show(&self, tier: Tier, seed: u64, idx: u64) -> String {
+        let mut rng = rng::Rng::new(rng::run_seed(seed, self.id(), idx));
+        let sc = self.generate(&mut rng, tier, idx);
+        serde_json::to_string_pretty(&sc).unwrap_or_default()
     }
 }
 
 fn main() {
-    install_panic_hook();
+    world::install_panic_hook();
     let args: Vec<String> = std::env::args().collect();
-    match args.get(1).map(|s| s.as_str()) {
-        Some("probe") => {
+    let cmd = args.get(1).map(|s| s.as_str()).unwrap_or("");
+    let seed: u64 = arg_val(&args, "--seed").or_else(|| std::env::var("VERIF_SEED").ok()).and_then(|s| s.parse().ok()).unwrap_or(1);
+    let tier = Tier::parse(&arg_val(&args, "--tier").or_else(|| std::env::var("VERIF_TIER").ok()).unwrap_or_else(|| "quick".into()));
+    let code = match cmd {
+        "check" => {
+            let prop = args.get(2).cloned().unwrap_or_default();
+            let shards = arg_val(&args, "--shards").and_then(|s| s.parse().ok()).unwrap_or(16);
+            let runs_override = arg_val(&args, "--runs").and_then(|s| s.parse().ok());
+            if let Some(path) = arg_val(&args, "--replay") {
+                with_campaign(&prop, &mut |c| c.replay(&path))
+            } else {
+                let a = CheckArgs { tier, seed, shards, verif_root: verif_root(), runs_override };
+                with_campaign(&prop, &mut |c| c.check(&a))
+            }
+        }
+        "worker" => {
+            let prop = args.get(2).cloned().unwrap_or_default();
+            let shard = arg_val(&args, "--shard").and_then(|s| s.parse().ok()).unwrap_or(0);
+            let shards = arg_val(&args, "--shards").and_then(|s| s.parse().ok()).unwrap_or(1);
+            let total = arg_val(&args, "--total").and_then(|s| s.parse().ok()).unwrap_or(0);
+            let hashes_only = args.iter().any(|a| a == "--hashes-only");
+            with_campaign(&prop, &mut |c| {
+                c.worker(tier, seed, shard, shards, total, hashes_only);
+                0
+            })
+        }
+        "determinism" => {
+            // run the first N indices of a campaign at several shard counts; per-run trace hashes must agree
+            let prop = args.get(2).cloned().unwrap_or_default();
+            let n: u64 = arg_val(&args, "--runs").and_then(|s| s.parse().ok()).unwrap_or(2000);
+            let mut reference: Option<std::collections::BTreeMap<i64, u64>> = None;
+            let mut bad = 0;
+            for (round, shards) in [(0, 1u64), (1, 4), (2, 16), (3, 16), (4, 7), (5, 1)] {
+                let m = campaign::drive(&prop, tier, seed, shards, n, true, 120);
+                println!("round {} shards {:2}: {} runs, {} hashes, dead shards {:?}", round, shards, m.runs, m.trace_hashes.len(), m.dead_shards);
+                match &reference {
+                    None => reference = Some(m.trace_hashes),
+                    Some(r) => {
+                        if *r != m.trace_hashes {
+                            let diffs: Vec<_> = r.iter().filter(|(k, v)| m.trace_hashes.get(k) != Some(v)).take(5).collect();
+                            println!("NONDETERMINISM: {} differ, e.g. {:?}", r.iter().filter(|(k, v)| m.trace_hashes.get(k) != Some(v)).count(), diffs);
+                            bad += 1;
+                        }
+                    }
+                }
+            }
+            if bad == 0 {
+                println!("determinism OK for {prop}: identical per-run trace hashes in all rounds");
+                0
+            } else {
+                1
+            }
+        }
+        "show" => {
+            // print the scenario generated for one run index
+            let prop = args.get(2).cloned().unwrap_or_default();
+            let idx: u64 = args.get(3).and_then(|s| s.parse().ok()).unwrap_or(0);
+            with_campaign(&prop, &mut |c| {
+                println!("{}", c.show(tier, seed, idx));
+                0
+            })
+        }
+        "probe" => {
             let n = args.get(3).and_then(|s| s.parse().ok()).unwrap_or(2000);
-            probe::<SimpleW>(&args[2], n);
-            println!("-------- basic");
-            probe::<BasicW>(&args[2], n);
+            probe::probe_both(&args[2], n);
+            0
         }
-        Some("demo") => {
-            demo::<SimpleW>(&args[2]);
-            demo::<BasicW>(&args[2]);
+        "demo" => {
+            probe::demo_both(&args[2]);
+            0
         }
-        _ => {}
-    }
+        _ => {
+            println!("usage: garnish_sim check <PROP> [--tier quick|thorough] [--seed N] [--replay file] | determinism <PROP> | probe <profile> n | demo <src>");
+            2
+        }
+    };
+    std::process::exit(code);
 }
